@@ -57,7 +57,7 @@ class Result:
             self.samples.append({"case": case, "outcome": out.get("outcome", "ok")})
         for f in out.get("failures", []) if not out.get("ok") else []:
             self.failures.append(
-                {"case": case, "sig": f.get("sig", {}), "detail": f.get("detail", ""), "order": order}
+                {"case": f.get("case", case), "sig": f.get("sig", {}), "detail": f.get("detail", ""), "order": order}
             )
         if not out.get("ok") and not out.get("failures"):
             self.failures.append(
@@ -167,16 +167,27 @@ def write_evidence(res, tier, seed, wall, violations):
     }
     EVIDENCE_DIR.mkdir(exist_ok=True)
     text = json.dumps(doc, indent=1, default=repr, ensure_ascii=False)
-    try:
-        import jsonschema
+    path = EVIDENCE_DIR / f"{res.pid}.json"
+    path.write_text(text + "\n")
+    validate_evidence(path)
 
-        schema = json.loads(pathlib.Path("/root/.vp/EVIDENCE.schema.json").read_text())
-        jsonschema.validate(json.loads(text), schema)
-    except ImportError:
-        pass
-    except FileNotFoundError:
-        pass
-    (EVIDENCE_DIR / f"{res.pid}.json").write_text(text + "\n")
+
+def validate_evidence(path):
+    """schema-check with the tooling venv (jsonschema is not in /venv); silent if unavailable"""
+    import shutil
+    import subprocess
+
+    schema = VERIF / "tools" / "EVIDENCE.schema.json"
+    exe = shutil.which("python3-vt")
+    if exe is None or not schema.exists():
+        return
+    code = (
+        "import json,sys,jsonschema;"
+        "jsonschema.validate(json.load(open(sys.argv[1])), json.load(open(sys.argv[2])))"
+    )
+    p = subprocess.run([exe, "-c", code, str(path), str(schema)], capture_output=True, text=True)
+    if p.returncode != 0:
+        raise HarnessError(f"evidence file {path} does not validate: {p.stderr[-800:]}")
 
 
 def report(res, tier, seed, wall):
@@ -211,6 +222,11 @@ def report(res, tier, seed, wall):
         print(f"VIOLATION property={res.pid} replay={path}")
         print("  " + (f["detail"] or jkey(f["sig"]))[:600].replace("\n", "\n  "))
         reported += 1
+    if fresh:
+        hist = collections.Counter(jkey(f["sig"]) for f in fresh)
+        print(f"violation signature classes ({len(hist)}):")
+        for k, n in hist.most_common(15):
+            print(f"  {n:6d} x {k}")
     write_evidence(res, tier, seed, wall, len(fresh))
     print(
         f"{res.pid} tier={tier} seed={seed} evaluations={res.evaluations} "
@@ -237,7 +253,7 @@ def main(argv=None):
         if args.replay:
             env.private_cache_home()
             body = json.loads(pathlib.Path(args.replay).read_text())
-            fn = getattr(mod, body.get("fn", "replay"), None) or mod.execute
+            fn = getattr(mod, body["case"].get("fn", "replay"), None) or mod.execute
             out = fn(body["case"])
             print(json.dumps(out, indent=1, default=repr, ensure_ascii=False))
             if not out.get("ok"):
